@@ -123,3 +123,117 @@ theorem goodSegs_prefix (n : Nat) (l : List Nat) (h : GoodSegs n l) (j : Nat) (h
       · right; simp only [List.take_succ_cons, List.sum_cons]; omega
 
 end EaselModel.Dsqdata
+
+/-! # Unpacking in place (`dsqdata_unpack_chunk` inside `smem`)
+
+The loader `fread`s the `pn` packets of a chunk to `psq = smem + U - 4·maxpacket` (the END of `smem`); the unpacker reads
+packet `p` from byte offset `U - 4·maxpacket + 4p` and writes residues (and a sentinel after each sequence) from byte 1
+upwards. The unpacked data must never reach a packet that has not been read yet. -/
+namespace EaselModel.Dsqdata
+
+/-- residues a packet unpacks to, as `dsqdata_unpack5` (`mode5`) / `dsqdata_unpack2` read it -/
+def packetResidues (mode5 : Bool) (v : UInt32) : List UInt8 :=
+  if mode5 || (v &&& BIT5 != 0) then (if v &&& EOD != 0 then partial5 v else fields5 v) else fields2 v
+
+/-- bytes the unpacker writes for one packet: its residues, plus the trailing sentinel when it ends a sequence -/
+def packetBytes (mode5 : Bool) (v : UInt32) : Nat :=
+  (packetResidues mode5 v).length + (if v &&& EOD != 0 then 1 else 0)
+
+/-- write position (index into `smem`) after unpacking the packets `ps`, starting at `r` -/
+def writeFront (mode5 : Bool) (ps : List UInt32) (r : Nat) : Nat := r + (ps.map (packetBytes mode5)).sum
+
+/-- `packetResidues` is what the unpackers append for a packet: the final packet of a sequence … -/
+theorem unpack_head_eod (v : UInt32) (ps : List UInt32) (h : (v &&& EOD != 0) = true) :
+    unpack5 (v :: ps) = some (packetResidues true v, 1) ∧ unpack2 (v :: ps) = some (packetResidues false v, 1) := by
+  constructor
+  · simp [unpack5, packetResidues, h]
+  · simp only [unpack2, h, ↓reduceIte, packetResidues, Bool.false_or]
+
+/-- … and a non-final one -/
+theorem unpack_head_more (v : UInt32) (ps : List UInt32) (h : (v &&& EOD != 0) = false) (d5 d2 : List UInt8) (p5 p2 : Nat)
+    (h5 : unpack5 ps = some (d5, p5)) (h2 : unpack2 ps = some (d2, p2)) :
+    unpack5 (v :: ps) = some (packetResidues true v ++ d5, p5 + 1) ∧ unpack2 (v :: ps) = some (packetResidues false v ++ d2, p2 + 1) := by
+  constructor
+  · simp [unpack5, packetResidues, h, h5]
+  · simp only [unpack2, h, Bool.false_eq_true, ↓reduceIte, h2, packetResidues, Bool.false_or]
+
+def per (mode5 : Bool) : Nat := if mode5 then 6 else 15
+
+theorem packetResidues_le (mode5 : Bool) (v : UInt32) : (packetResidues mode5 v).length ≤ per mode5 ∨ (mode5 = false ∧ (packetResidues mode5 v).length ≤ 15) := by
+  unfold packetResidues per
+  have h5 : (fields5 v).length = 6 := by simp [fields5]
+  have h2 : (fields2 v).length = 15 := by simp [fields2]
+  have hp : (partial5 v).length ≤ 6 := by
+    unfold partial5
+    have := (List.takeWhile_prefix (fun c => c != 31) (l := fields5 v)).length_le
+    omega
+  cases mode5
+  · right; refine ⟨rfl, ?_⟩
+    simp only [Bool.false_or]
+    split
+    · split <;> omega
+    · omega
+  · left
+    simp only [Bool.true_or, ↓reduceIte]
+    split <;> omega
+
+theorem packetBytes_le (mode5 : Bool) (v : UInt32) :
+    packetBytes mode5 v ≤ per mode5 + (if v &&& EOD != 0 then 1 else 0) := by
+  unfold packetBytes
+  have := packetResidues_le mode5 v
+  have hper : per mode5 = 6 ∨ per mode5 = 15 := by unfold per; cases mode5 <;> simp
+  rcases this with h | ⟨hm, h⟩
+  · omega
+  · subst hm; simp only [per] at *; simp at *; omega
+
+/-- number of sequences that end among the packets `ps` -/
+def eodCount (ps : List UInt32) : Nat := (ps.filter fun v => v &&& EOD != 0).length
+
+theorem writeFront_le (mode5 : Bool) (ps : List UInt32) (r : Nat) :
+    writeFront mode5 ps r ≤ r + per mode5 * ps.length + eodCount ps := by
+  induction ps generalizing r with
+  | nil => simp [writeFront, eodCount]
+  | cons v vs ih =>
+    have h1 := packetBytes_le mode5 v
+    have h2 := ih (r + packetBytes mode5 v)
+    have hm : per mode5 * (vs.length + 1) = per mode5 * vs.length + per mode5 := Nat.mul_succ _ _
+    have hw : writeFront mode5 (v :: vs) r = writeFront mode5 vs (r + packetBytes mode5 v) := by
+      simp only [writeFront, List.map_cons, List.sum_cons]; omega
+    have hc : eodCount (v :: vs) = eodCount vs + (if v &&& EOD != 0 then 1 else 0) := by
+      simp only [eodCount, List.filter_cons]
+      split <;> simp
+    rw [hw, hc, List.length_cons]
+    omega
+
+/-- **Unpacking in place never overwrites an unread packet**, for every chunk within the limits the chunk buffer was
+    created for (`pn ≤ maxpacket` packets, `N ≤ maxseq` sequences, `U ≥ per·maxpacket + maxseq + 1` bytes): when the
+    unpacker is about to read packet `p`, everything it has written so far (the leading sentinel, the residues and
+    sentinels of packets `0 … p-1`) lies strictly below that packet's first byte; and at the end everything fits `smem`. -/
+theorem unpack_in_place_safe (mode5 : Bool) (ps : List UInt32) (maxpacket maxseq U : Nat)
+    (hpn : ps.length ≤ maxpacket) (hN : eodCount ps ≤ maxseq) (hU : per mode5 * maxpacket + maxseq + 1 ≤ U) :
+    (∀ p, p < ps.length → writeFront mode5 (ps.take p) 1 ≤ (U - 4 * maxpacket) + 4 * p) ∧
+    writeFront mode5 ps 1 ≤ U := by
+  have hper : per mode5 = 6 ∨ per mode5 = 15 := by unfold per; cases mode5 <;> simp
+  have hcount : ∀ p, eodCount (ps.take p) ≤ eodCount ps := by
+    intro p
+    unfold eodCount
+    have : (ps.take p).filter (fun v => v &&& EOD != 0) = ((ps.filter fun v => v &&& EOD != 0)).take ((ps.take p).filter (fun v => v &&& EOD != 0)).length := by
+      have hsub : ((ps.take p).filter fun v => v &&& EOD != 0) <+: (ps.filter fun v => v &&& EOD != 0) := by
+        exact List.IsPrefix.filter _ (List.take_prefix p ps)
+      exact (List.prefix_iff_eq_take.mp hsub)
+    have hsub : ((ps.take p).filter fun v => v &&& EOD != 0) <+: (ps.filter fun v => v &&& EOD != 0) :=
+      List.IsPrefix.filter _ (List.take_prefix p ps)
+    exact hsub.length_le
+  refine ⟨?_, ?_⟩
+  · intro p hp
+    have h := writeFront_le mode5 (ps.take p) 1
+    have hl : (ps.take p).length = p := by simp; omega
+    have hc := hcount p
+    rw [hl] at h
+    rcases hper with e | e <;> rw [e] at h hU <;> omega
+  · have h := writeFront_le mode5 ps 1
+    rcases hper with e | e <;> rw [e] at h hU
+    · have := Nat.mul_le_mul_left 6 hpn; omega
+    · have := Nat.mul_le_mul_left 15 hpn; omega
+
+end EaselModel.Dsqdata
